@@ -117,7 +117,7 @@ func (tpl *Template) newContextForExecution(context Context) (*Template, *Execut
 		}
 
 		// Check for clashes with macro names
-		for k := range newContext {
+		for _, k := range newContext.sortedKeys() {
 			_, has := tpl.exportedMacros[k]
 			if has {
 				return parent, nil, &Error{
